@@ -11,6 +11,8 @@ from .. import common, solvex, cfgs, monitors as mon
 LEVEL = "exploration"
 MOD = "C04"
 SITE_EXEMPT = {}     # evaluation sites this check cannot reach (site -> reason); see solvex.site_floor
+EXIT_EXEMPT = {"solve_main#0": "budget reached while x0 is being sampled: needs averaging, which C04's statement excludes",
+               "solve_main#9": "auto-detected restart: needs a noisy objective, which C04's statement excludes"}
 
 BOX = {"lo": [-1.5, -0.5], "hi": [0.9, 1.7]}
 BOXBALL = [{"t": "box", "l": [0.7, -2.0], "u": [1.0, 2.0]}, {"t": "ball", "c": [0.5, 1.0], "r": 0.25}]
@@ -106,6 +108,7 @@ def run(report, tier, seed):
     cps = _configs(tier, salts)
     res = solvex.explore(report, MOD, cps, classify=classify)
     solvex.site_floor(report, res["tags"], exempt=SITE_EXEMPT)
+    solvex.exit_floor(report, res["tags"], exempt=EXIT_EXEMPT)
     tags = res["tags"]
     cov = report.coverage
     dev_exits = sorted(t for t in tags if t.startswith("best_from_deviation|"))
